@@ -166,7 +166,43 @@ type eeTransport struct{ base http.RoundTripper }
 
 var realNodes bool
 
+// the armed fault point of the request being served (see Desc.FaultOf): calls to faultHost are counted, the faultK-th fails
+var (
+	faultMu    sync.Mutex
+	faultHost  string
+	faultK     int
+	faultSeen  int
+	faultFired int
+)
+
+func armFault(node, k int) {
+	faultMu.Lock()
+	faultHost, faultK, faultSeen = fmt.Sprintf("10.0.0.%d:9502", node), k, 0
+	faultMu.Unlock()
+}
+
+func disarmFault() (fired bool) {
+	faultMu.Lock()
+	fired = faultK > 0 && faultSeen >= faultK
+	faultHost, faultK, faultSeen = "", 0, 0
+	faultMu.Unlock()
+	return
+}
+
 func (t eeTransport) RoundTrip(req *http.Request) (*http.Response, error) {
+	faultMu.Lock()
+	hit := false
+	if faultK > 0 && req.URL.Host == faultHost {
+		faultSeen++
+		hit = faultSeen == faultK
+	}
+	faultMu.Unlock()
+	if hit {
+		if req.Body != nil {
+			req.Body.Close()
+		}
+		return nil, fmt.Errorf("read tcp 10.0.0.100:40000->%s: read: connection reset by peer (injected fault point)", req.URL.Host)
+	}
 	if !realNodes && strings.HasSuffix(req.URL.Host, ":9504") {
 		return nil, fmt.Errorf("dial tcp %s: connect: connection refused (no sync agent behind a model node)", req.URL.Host)
 	}
